@@ -48,7 +48,7 @@ def qs_worker(prop, seed, widx, nworkers, plan, scratch, allow_restart=False, ru
     n = 0
     while n < per_worker and time.monotonic() < t_end:
         rng, cfg = draw_run(seed, prop, i, allow_restart)
-        res = qsrun.run_generated(scratch, rng, cfg, run_cls=run_cls)
+        res = qsrun.run_generated(scratch, rng, cfg, run_cls=run_cls, own=prop)
         n += 1
         digest_dump(i, res["digest"])
         st["runs"] += 1
@@ -63,6 +63,8 @@ def qs_worker(prop, seed, widx, nworkers, plan, scratch, allow_restart=False, ru
         Stats.merge(st["modes"], {cfg["mode"] + ("" if cfg["faults"] else "-faultfree"): 1})
         for he in res["hub_errors"]:
             Stats.merge(st["hub_errors"], {he[0]: 1})
+        if res.get("foreign_seen"):
+            Stats.merge(st["foreign"], res["foreign_seen"])
         if len(st["states"]) < Stats.SET_CAP:
             st["states"] |= {h.hex() for h in res["states"]}
         if len(st["interleavings"]) < Stats.SET_CAP:
@@ -78,11 +80,11 @@ def qs_worker(prop, seed, widx, nworkers, plan, scratch, allow_restart=False, ru
                             "faults": res["faults"]})
         if n % 100 == 1:  # built-in determinism probe
             rng2, cfg2 = draw_run(seed, prop, i, allow_restart)
-            res2 = qsrun.run_generated(scratch, rng2, cfg2, run_cls=run_cls)
+            res2 = qsrun.run_generated(scratch, rng2, cfg2, run_cls=run_cls, own=prop)
             st["determinism_rechecks"] += 1
             if res2["digest"] != res["digest"]:
                 raise HarnessError(f"non-deterministic run {i}: digest {res['digest']} vs {res2['digest']}")
-            res3 = qsrun.run_script(scratch, res["steps"], res["choices"], run_cls=run_cls)
+            res3 = qsrun.run_script(scratch, res["steps"], res["choices"], run_cls=run_cls, own=prop)
             if res3["digest"] != res["digest"]:
                 raise HarnessError(f"replay of run {i} diverges: digest {res['digest']} vs {res3['digest']}")
         # "with every choice among eligible blocked workers": when the run contained real
@@ -96,7 +98,7 @@ def qs_worker(prop, seed, widx, nworkers, plan, scratch, allow_restart=False, ru
                     vec = list(vec)
                     if vec == res["choices"][:len(vec)]:
                         continue
-                    alt = qsrun.run_script(scratch, res["steps"], vec, run_cls=run_cls)
+                    alt = qsrun.run_script(scratch, res["steps"], vec, run_cls=run_cls, own=prop)
                     st["choice_vector_reruns"] = st.get("choice_vector_reruns", 0) + 1
                     if alt["violation"] is not None:
                         res = alt
@@ -109,7 +111,7 @@ def qs_worker(prop, seed, widx, nworkers, plan, scratch, allow_restart=False, ru
             if owner != prop:
                 Stats.merge(st["foreign"], {v["class"]: 1})
             else:
-                small, choices, r2 = qsrun.minimise(scratch, res["steps"], res["choices"], v["class"], run_cls=run_cls)
+                small, choices, r2 = qsrun.minimise(scratch, res["steps"], res["choices"], v["class"], run_cls=run_cls, own=prop)
                 if r2 is None or r2["violation"] is None:
                     raise HarnessError(f"violation of run {i} does not replay: {v}")
                 rec = {"property": prop, "seed": seed, "run_index": i, "pythonhashseed": 0,
@@ -179,4 +181,4 @@ def qs_evidence(prop, level, stats, samples, plan, tier, seed, wall, nviol, know
 
 
 def qs_replay(v, scratch, run_cls=qsrun.QsRun):
-    return qsrun.run_script(scratch, v["steps"], v["choices"], run_cls=run_cls)
+    return qsrun.run_script(scratch, v["steps"], v["choices"], run_cls=run_cls, own=v.get("property"))
